@@ -15,7 +15,11 @@ W = ["w", "b"]
 
 
 def _k(fmt):
-    return [fmt % c for c in W]
+    r = [fmt % c for c in W]
+    # the slider / knight generators have a complete (thorough) and a bounded (quick) obligation
+    if any(x in fmt for x in ("gen/knight/tt", "gen/bishop/tt", "gen/rook/tt", "gen/queen/tt")):
+        r += [(fmt % c) + "/le3" for c in W]
+    return r
 
 
 MAP = {
@@ -37,7 +41,7 @@ MAP = {
     ("chess/src/chain.rs", "pop"): (1, ["C13/chain/verus"], "precondition of unmake_move_unchecked proved from the chain invariant (lemma_pop_pre_from_cinv)"),
     ("chess/src/chain.rs", "push_unchecked"): (1, ["C13/chain/verus"], "public `unsafe fn`; its own call to make_move_unchecked has no precondition beyond the caller's"),
     ("chess/src/chain.rs", "set_board_pos"): (2, ["C17/walker/verus"], "both unsafe calls: precondition proved for stacks of any length"),
-    ("chess/src/movegen.rs", "add_move"): (1, ["C01/gen/knight/tt/w", "C01/gen/knight/tt/b"], "Move::new_unchecked: every pushed move is pseudo-legal hence well-formed (all C01/gen obligations)"),
+    ("chess/src/movegen.rs", "add_move"): (1, _k("C01/gen/knight/tt/%s") + _k("C01/gen/king/tt/%s"), "Move::new_unchecked: every pushed move is pseudo-legal hence well-formed (all C01/gen obligations)"),
     ("chess/src/movegen.rs", "add_pawn_with_promote"): (1, _k("C01/gen/pawn-simple/tt/%s") + _k("C01/gen/pawn-capture/%s"), ""),
     ("chess/src/movegen.rs", "do_gen_pawn_single"): (1, _k("C01/gen/pawn-simple/tt/%s"), "add_unchecked stays on the board"),
     ("chess/src/movegen.rs", "do_gen_pawn_double"): (1, _k("C01/gen/pawn-simple/tt/%s"), ""),
